@@ -54,6 +54,10 @@ class Literal(Exception):
         return "{%d}" % self.value
 
 
+class PreparedLiteral(bytes):
+    """An argument already formatted as a literal ({size+} CRLF content)."""
+
+
 def authentication_required(meth):
     """Simple class method decorator.
 
@@ -219,24 +223,29 @@ class Client:
     def __prepare_args(self, args: List[Any]) -> List[bytes]:
         """Format command arguments before sending them.
 
-        Command arguments of type string must be quoted, the only
-        exception concerns size indication (of the form {\d\+?}).
+        Command arguments of type string must be quoted (with
+        backslashes and double quotes escaped) or, when they contain
+        characters a quoted string cannot hold, sent as literals. The
+        only exception concerns content already formatted as a literal.
 
         :param args: list of arguments
         :return: a list for transformed arguments
         """
         ret = []
         for a in args:
-            if isinstance(a, bytes):
-                if self.__size_expr.match(a):
-                    ret += [a]
+            if isinstance(a, PreparedLiteral):
+                ret += [a]
+            elif isinstance(a, bytes):
+                if b"\r" in a or b"\n" in a or b"\0" in a:
+                    ret += [b"{%d+}%s%s" % (len(a), CRLF, a)]
                 else:
+                    a = a.replace(b"\\", b"\\\\").replace(b'"', b'\\"')
                     ret += [b'"' + a + b'"']
-                continue
-            ret += [bytes(str(a).encode("utf-8"))]
+            else:
+                ret += [bytes(str(a).encode("utf-8"))]
         return ret
 
-    def __prepare_content(self, content: str) -> bytes:
+    def __prepare_content(self, content: str) -> PreparedLiteral:
         """Format script content before sending it.
 
         Script length must be inserted before the content,
@@ -246,7 +255,7 @@ class Client:
         :return: transformed script as bytes
         """
         bcontent: bytes = content.encode("utf-8")
-        return b"{%d+}%s%s" % (len(bcontent), CRLF, bcontent)
+        return PreparedLiteral(b"{%d+}%s%s" % (len(bcontent), CRLF, bcontent))
 
     def __send_command(
         self,
